@@ -513,7 +513,7 @@ func (e *Exec) scanCallWrites(st *State, call *ast.CallExpr, fp *footprint, info
 	// builtin copy
 	if id, ok := ast.Unparen(call.Fun).(*ast.Ident); ok {
 		if b, ok := info.Uses[id].(*types.Builtin); ok {
-			if b.Name() == "copy" {
+			if b.Name() == "copy" || b.Name() == "clear" {
 				bt := info.TypeOf(call.Args[0])
 				if sl, ok := bt.Underlying().(*types.Slice); ok {
 					var ls []leaf
